@@ -87,6 +87,7 @@ func (v *value) set(v1, v2 uint64) error {
 	if err := syncDir(v.dir); err != nil {
 		return err
 	}
+	verifPoint("value.set", v.dir, v.ext)
 	v.v1, v.v2 = v1, v2
 	return nil
 }
